@@ -315,3 +315,5 @@ P("C16", CU, "                point_diffs[:, 1] ** 2 + point_diffs[:, 2] ** 2 + 
 P("C16", CU, "            dists = np.asarray([2 * radius])", "            dists = np.asarray([radius + radius])")
 # R-C11-basestate
 B("C11", BASE, "        if group_name not in self.base.groups:", "        if group_name not in self.groups:", "R-C11-basestate")
+# F19 (repaired): forward Euler must refuse unequal compartment counts
+B("C01", SV, "    if len(np.unique(ncomp_per_branch)) > 1:\n        # The reshapes below", "    if False:\n        # The reshapes below", "R-C01-refuse")
